@@ -560,6 +560,16 @@ class _SInt64(real_np.int64):
 NPShim.int64 = _SInt64
 
 
+class _SFloat64(real_np.float64):
+    def __new__(cls, x=0.0):
+        if is_sym(x) or isinstance(x, SF):
+            return SF.of(x)
+        return real_np.float64(x)
+
+
+NPShim.float64 = _SFloat64
+
+
 def _ltv(a, b):
     if isinstance(b, SF) and not isinstance(a, SF):
         return SF.of(a).lt(b)
